@@ -70,7 +70,13 @@ def gen_cases(rng, tier):
         cfg["turns"] = [G.gen_turn(rng, cfg, k + 1, w_in, w_out) for k in range(rng.choice([1, 2, 2, 3, 4]))]
         if rng.random() < 0.12 and G.fits(cfg["ver"], cfg["dialog"], len(cfg["in"]), len(cfg["out"]), sc=True):
             G.add_selfcheck(rng, cfg)
+        elif cfg["ver"] == "1.0" and rng.random() < 0.2:
+            G.purify(rng, cfg, "in")  # the last input rail becomes a pure-Colang rail (reads the flows' view of $user_message)
+        if rng.random() < 0.3:
+            G.collapse_texts(rng, cfg, p_bot=0.3, p_user=0.5)  # user texts / rewrites that repeat earlier ones
         cases.append(cfg)
+    # user texts that REPEAT around a turn hidden by a fault after `$user_message` was set (see pipeline_cases.REPEAT_PATTERNS)
+    cases.extend(G.repeat_cases(rng, tier, "in"))
     # every (version, dialog, exceptions) x rail shape, every turn position rejected / rewritten once
     for cfg in G.all_cfgs(IN_SHAPES if tier == "thorough" else IN_SHAPES[:3], carries=("messages", "state") if tier == "thorough" else ("messages",)):
         if not cfg["in"] or not G.fits(cfg["ver"], cfg["dialog"], len(cfg["in"]), len(cfg["out"])):
@@ -129,7 +135,7 @@ def gen_cases(rng, tier):
 
 # ----------------------------------------------------------------------------- oracle (property text, on observations)
 
-def turn_oracle(case, tc, to):
+def turn_oracle(case, tc, to, earlier=()):
     steps = to["steps"]
     cfg_in = G.eff_in(case)
     calls = [(idx, s) for idx, s in enumerate(steps) if s[0] == "rail" and s[1] == "in"]
@@ -173,24 +179,44 @@ def turn_oracle(case, tc, to):
         v = G.verdict_of(tc, "in", rid)
         if case["ver"] == "1.0" and G.is_rewrite(v):
             cur, rewritten = v[1], True
+    if stop is None:
+        # every later stage works on the message of THIS turn in its current (possibly rewritten) form
+        for s in steps:
+            if s[0] == "llm" and s[1] != "generate_next_steps" and G.sentinel(cur) not in s[2]:
+                code = "rewritten-not-in-prompt" if rewritten else "current-not-in-prompt"
+                return f"[{code}] the prompt of {s[1]} does not contain the {'rewritten' if rewritten else 'current'} text of this turn ({G.sentinel(cur)})"
     if case["ver"] == "1.0" and rewritten and stop is None:
         orig = G.sentinel(tc["user"])
+        # the same text may legitimately be visible from an EARLIER turn of the conversation (repeated user texts): it is the final
+        # form of that turn's message (part of the history the prompts are rendered from), or the client's own message list is the
+        # prompt (passthrough chat mode forwards the client's history verbatim)
+        legit = any(G.sentinel(_final_user(case, e)) == orig or (case.get("gen") in G.P.PT_MODES and G.sentinel(e["user"]) == orig) for e in earlier)
         for s in steps:
-            if s[0] == "llm":
+            if s[0] == "llm" and not legit:
                 if orig in s[2]:
                     return f"[original-in-prompt] the prompt of {s[1]} contains the original text ({orig}) although an input rail rewrote it"
-                if s[1] != "generate_next_steps" and G.sentinel(cur) not in s[2]:
-                    return f"[rewritten-not-in-prompt] the prompt of {s[1]} does not contain the rewritten text ({G.sentinel(cur)})"
-            if s[0] == "rail" and s[1] == "out" and s[3] and orig in s[3]:
+            if s[0] == "rail" and s[1] == "out" and s[3] and orig in s[3] and orig not in tc["bot"]:
                 return f"[original-in-output] an output rail was shown text containing the original user text ({orig})"
     return None
+
+
+def _final_user(case, tc):
+    """the form of a turn's user text after the rewrites of its input rails (as scripted)"""
+    cur = tc["user"]
+    for rid in G.eff_in(case):
+        v = G.verdict_of(tc, "in", rid)
+        if v in ("r", "f"):
+            break
+        if case["ver"] == "1.0" and G.is_rewrite(v):
+            cur = v[1]
+    return cur
 
 
 def oracle(case, obs):
     for k, (tc, to) in enumerate(zip(case["turns"], obs["turns"])):
         if to["raised"]:
             return None  # `generate` raising is C03's statement; nothing of this turn can be observed
-        msg = turn_oracle(case, tc, to)
+        msg = turn_oracle(case, tc, to, case["turns"][:k])
         if msg:
             return f"turn {k + 1}: {msg}"
     return None
